@@ -194,7 +194,7 @@ def _case(draw):
 
 class C08:
     id = "C08"
-    cases = {"quick": 500, "thorough": 20000}
+    cases = {"quick": 2000, "thorough": 60000}
     rule = ("an exception forest of 2-5 classes (depth <=3 under Exception) plus one non-exception class; a callee declaring 1-2 of "
             "them; an enclosing function or method whose body is a generated tree of raising sites (call of the callee as statement, "
             "initialiser or inside print; raise statement) nested in if/else, for, while, match arms, sequences and handles (guarded "
